@@ -284,6 +284,39 @@ impl Prop for C14 {
             1 => Mode::Garbage,
             _ => Mode::RoundTrip,
         };
+        // "arbitrary bytes" that stay close to the grammar: alphabet characters and padding in every
+        // position (uniform random bytes almost never form an aligned group made of '=' only)
+        let data = if matches!(mode, Mode::Garbage) && rng.chance(2, 3) {
+            let groups = len.div_ceil(4).max(1);
+            let mut text = Vec::with_capacity(groups * 4);
+            for _ in 0..groups {
+                let group: [u8; 4] = match rng.below(8) {
+                    0 => *b"====",
+                    1 => *b"A===",
+                    2 => *b"=AAA",
+                    3 => *b"AA=A",
+                    4 => *b"AA==",
+                    5 => *b"AAA=",
+                    _ => [
+                        ALPHABET[rng.below(64)],
+                        ALPHABET[rng.below(64)],
+                        if rng.chance(1, 6) { b'=' } else { ALPHABET[rng.below(64)] },
+                        if rng.chance(1, 4) { b'=' } else { ALPHABET[rng.below(64)] },
+                    ],
+                };
+                text.extend_from_slice(&group);
+            }
+            if rng.chance(1, 4) {
+                text.truncate(text.len() - rng.range(1, 3));
+            }
+            if rng.chance(1, 6) && !text.is_empty() {
+                let at = rng.below(text.len());
+                text[at] = *rng.pick(&[b'-', b'_', b' ', b'\n', 0u8, 0xffu8]);
+            }
+            text
+        } else {
+            data
+        };
         // flush() between write calls, a writer that takes few bytes per call, and a reader that is
         // interrupted by signals: all legitimate behaviours of the io traits the codec is written against
         let flushes = match rng.below(4) {
